@@ -24,6 +24,20 @@ func (x *Exec) specialCall(fr *Frame, st *State, ci ssa.CallInstruction, key str
 		if m, self := x.monitorFor(c); m != nil {
 			x.monitorCall(fr, st, ci, m, self, method)
 		}
+		// ghost: which mutex fields are held ($held(Type.field)); keyed by type and field, i.e. one
+		// object of the type per function is assumed (the receiver) – stated in the evidence
+		if len(c.Args) > 0 {
+			if fa, ok := c.Args[0].(*ssa.FieldAddr); ok {
+				stt := deref(fa.X.Type())
+				gk := "held|" + typeKey(stt) + "." + stt.Underlying().(*types.Struct).Field(fa.Field).Name()
+				switch method {
+				case "Lock":
+					st.ghost[gk] = "true"
+				case "Unlock":
+					st.ghost[gk] = "false"
+				}
+			}
+		}
 		if method == "TryLock" || method == "TryRLock" {
 			return []string{x.vc.freshConst("trylock", "Bool")}, true
 		}
